@@ -18,7 +18,7 @@ import random
 from lib import cmd, Sym, import_impl, outcome, is_error, family_replies
 
 META = dict(
-    technique='Coq theorems (to_cnf_in_range for every IR list; allocation-history invariant over fold_left; numvar/range clauses of the substitution and shuffle theorems) + differential at realistic sizes + recorded allocation histories replayed in the extracted machine',
+    technique='Coq theorems (to_cnf_in_range/to_opb_in_range for every IR list; per-family literal range and documented variable count for all 31 family models; allocation-history invariant over fold_left; numvar/range clauses of the substitution and shuffle theorems) + differential at realistic sizes + recorded allocation histories replayed in the extracted machine',
     category='proof',
     text='Theorems: (1) for every list of builder calls with non-zero literals, every literal of the CNF rendering is non-zero and within the '
          'largest variable the calls mention; (2) for every sequence of group creations, checked/unchecked clause insertions and explicit raises, '
@@ -27,8 +27,8 @@ META = dict(
          'Tied to the code by building every registered family under both classes at small and realistic sizes (numvar vs model and vs the '
          'documented formula, all literals scanned), random transformation chains, CLI output, and by recording real allocation histories '
          '(wrapping add_clause/add_constraint/_add_variable_group from the harness) and replaying them through the extracted machine.',
-    note='Trusted: Coq kernel, extraction, harness wrappers. The per-family statement "numvar = documented formula" is a theorem only where the family slice proves it '
-         '(see Prop_C01/02/03); elsewhere it is checked on the enumerated parameters.',
+    note='Trusted: Coq kernel, extraction, harness wrappers. Per family, "literals in 1..numvar" and "numvar = documented closed formula" are theorems (Prop_C10_families.v, 31 models) '
+         'under the well-formedness hypothesis of the family; the tie to the code is the differential run.',
     design_ref='5/C10',
 )
 RULE = ('families x parameters (small exhaustive + seeded medium/large) x {CNF,OPB}; transformation chains on random and family formulas; '
